@@ -281,8 +281,7 @@ def judgeWith (refCheck : Bool) (ops outs : List String) : String :=
           ∨ (v.splitOn "kind=deleted-back-after-cleantomb-restart").length > 1 then "ok"
       else "violation ref-mismatch " ++ (v.drop 10).toString
 
-def suite : Suite := { name := "snap", model := model, judge := judgeWith true }
-
-def suiteOOO : Suite := { name := "osnap", model := modelConst, judge := judgeWith false }
+/- The `snap` and `osnap` suites are registered in MsnapSuite.lean: their judge is `judgeWith` followed by
+   the re-classification of F32's sample-less route (`Msnap.reclass`), which needs the ghost state defined there. -/
 
 end Prom.Db.Snap
